@@ -140,7 +140,12 @@ func c03Routing(c *Ctx, p *Prog, m *Model) {
 			}
 			if x.Op == token.GTR || x.Op == token.NEQ {
 				if call, ok := x.X.(*ssa.Call); ok && isBuiltinCall(call, "len") {
-					if ex, ok := call.Common().Args[0].(*ssa.Extract); ok && ex.Index == 0 && isLeveledLookup(ex.Tuple) != nil {
+					a0 := call.Common().Args[0]
+					if ex, ok := a0.(*ssa.Extract); ok && ex.Index == 0 {
+						a0 = ex.Tuple
+					}
+					// (a plain lookup in a nil map or of a missing key gives the empty list: "non-empty" implies both)
+					if isLeveledLookup(a0) != nil {
 						if z, ok := constInt(x.Y); ok && z == 0 {
 							return "nonempty", true
 						}
@@ -281,7 +286,10 @@ func c03Routing(c *Ctx, p *Prog, m *Model) {
 	} else {
 		var own, def *ssa.Call
 		for _, cs := range callsTo(fw, get) {
-			call := cs.(*ssa.Call)
+			call, isCall := cs.(*ssa.Call)
+			if !isCall {
+				continue
+			}
 			a0 := call.Common().Args[0]
 			if b, ok := isFieldLoadOf(a0, "Entry", "writer"); ok && b == ssa.Value(receiver(fw)) {
 				own = call
@@ -292,47 +300,87 @@ func c03Routing(c *Ctx, p *Prog, m *Model) {
 		var probs []string
 		if own == nil {
 			probs = append(probs, "the logger's own writer set is not consulted")
-		} else {
-			if own.Common().Args[1] != ssa.Value(fw.Params[1]) {
-				probs = append(probs, "own set asked for another level")
-			}
-			g := false
-			for _, gd := range guardsOf(own.Block()) {
-				if m.guardDesc(gd) == "T:Entry.writer != nil" || m.guardDesc(gd) == "F:Entry.writer == nil" {
-					g = true
-				}
-			}
-			if !g {
-				probs = append(probs, "own set used without a non-nil test")
-			}
+		} else if own.Common().Args[1] != ssa.Value(fw.Params[1]) {
+			probs = append(probs, "own set asked for another level")
 		}
 		if def == nil {
 			probs = append(probs, "no fallback to the package default writers")
 		} else if def.Common().Args[1] != ssa.Value(fw.Params[1]) {
 			probs = append(probs, "the default set is asked for another level")
 		}
-		rets, _ := exitBlocks(fw)
-		for _, b := range rets {
-			for _, s := range sources(b.Instrs[len(b.Instrs)-1].(*ssa.Return).Results[0]) {
-				if s != ssa.Value(own) && s != ssa.Value(def) && !isNilConst(s) {
-					probs = append(probs, "returns something else: "+m.valDesc(s))
+		if own != nil && def != nil {
+			// decision function over {own set present, own set's answer is nil}
+			isOwn := func(v ssa.Value) bool {
+				for _, s := range sources(v) {
+					if s == ssa.Value(own) {
+						return true
+					}
+				}
+				return false
+			}
+			for _, a := range assignments([]string{"writer!=nil", "own==nil"}, func(a map[string]bool) bool { return a["writer!=nil"] || a["own==nil"] }) {
+				t := walkDecision(fw.Blocks[0], a, func(cond ssa.Value) (string, bool) {
+					bo, ok := cond.(*ssa.BinOp)
+					if !ok || (bo.Op != token.EQL && bo.Op != token.NEQ) || !isNilConst(bo.Y) {
+						return "", false
+					}
+					name := ""
+					if b, ok := isFieldLoadOf(bo.X, "Entry", "writer"); ok && b == ssa.Value(receiver(fw)) {
+						name = "writer!=nil"
+						if bo.Op == token.EQL {
+							a["¬writer!=nil"] = !a["writer!=nil"]
+							return "¬writer!=nil", true
+						}
+						return name, true
+					}
+					if isOwn(bo.X) {
+						if bo.Op == token.NEQ {
+							a["¬own==nil"] = !a["own==nil"]
+							return "¬own==nil", true
+						}
+						return "own==nil", true
+					}
+					return "", false
+				}, nil)
+				wn, on := a["writer!=nil"], a["own==nil"]
+				for k := range a {
+					if strings.HasPrefix(k, "¬") {
+						delete(a, k)
+					}
+				}
+				if t.Kind != "return" {
+					probs = append(probs, "the choice depends on something other than 'own set present' and 'own set gave nothing' ("+t.Kind+")")
+					continue
+				}
+				got := "other"
+				switch v := strip(resolveAlong(t.Instr.(*ssa.Return).Results[0], t.Path)); {
+				case v == ssa.Value(own):
+					got = "own"
+				case v == ssa.Value(def):
+					got = "default"
+				case isNilConst(v):
+					got = "nil"
+				default:
+					got = m.valDesc(v)
+				}
+				want := "default"
+				if wn && !on {
+					want = "own"
+				}
+				if got != want {
+					probs = append(probs, fmt.Sprintf("with own set present=%v and its answer nil=%v the result is %s, documented: %s", wn, on, got, want))
+				}
+				// the own set is only dereferenced when it exists
+				if !wn {
+					for _, cs := range t.Calls {
+						if cs == ssa.CallInstruction(own) {
+							probs = append(probs, "own set used without a non-nil test")
+						}
+					}
 				}
 			}
 		}
-		// precedence: the default is used only when the own set gave nothing
-		if def != nil {
-			ok := false
-			for _, gd := range guardsOf(def.Block()) {
-				d := m.guardDesc(gd)
-				if strings.HasPrefix(d, "T:phi == nil") || strings.HasPrefix(d, "F:phi != nil") || d == "F:Entry.writer != nil" || d == "T:Entry.writer == nil" {
-					ok = true
-				}
-			}
-			if !ok {
-				probs = append(probs, "the package default is not restricted to loggers without own writers")
-			}
-		}
-		r.Check(len(probs) == 0, "R03.2", "Entry.findWriter", p.FuncPos(fw), "own set when present, package default otherwise, same level", strings.Join(probs, "; "))
+		r.Check(len(probs) == 0, "R03.2", "Entry.findWriter", p.FuncPos(fw), "own set when present, package default otherwise, same level", strings.Join(dedupStr(probs), "; "))
 	}
 	if rs := p.Method(p.Slog, "dualWriter", "Reset"); rs != nil {
 		got := map[string]string{}
@@ -398,27 +446,41 @@ func wrappedGlobal(v ssa.Value) string {
 	return tn + "(?)"
 }
 
-// transitiveDWStores: fields of dualWriter written by fn through its receiver, following calls on the receiver.
-func transitiveDWStores(p *Prog, fn *ssa.Function, seen map[*ssa.Function]bool) map[string]bool {
-	out := map[string]bool{}
-	if seen[fn] {
-		return out
-	}
-	seen[fn] = true
-	for _, fs := range fieldStores(fn) {
-		if fs.Struct == "dualWriter" && fs.Base == ssa.Value(receiver(fn)) {
-			out[fs.Field] = true
+// allowedListWriters: the documented operations plus private helpers called only from them.
+func allowedListWriters(p *Prog, m *Model) map[*ssa.Function]bool {
+	ok := map[*ssa.Function]bool{}
+	for n := range dwOps {
+		if fn := p.Method(p.Slog, "dualWriter", n); fn != nil {
+			ok[fn] = true
 		}
 	}
-	for _, cs := range callsIn(fn) {
-		cal := calleeOf(cs)
-		if cal != nil && cal.Signature.Recv() != nil && typeName(cal.Signature.Recv().Type()) == "dualWriter" && len(cs.Common().Args) > 0 && cs.Common().Args[0] == ssa.Value(receiver(fn)) {
-			for f := range transitiveDWStores(p, cal, seen) {
-				out[f] = true
+	for changed := true; changed; {
+		changed = false
+		for _, fn := range p.RepoFuncs() {
+			if ok[fn] || fn.Parent() != nil || fn.Object() == nil || fn.Object().Exported() {
+				continue
+			}
+			sites := m.Callers[fn]
+			if len(sites) == 0 {
+				continue
+			}
+			all := true
+			for _, cs := range sites {
+				caller := cs.Parent()
+				for caller.Parent() != nil {
+					caller = caller.Parent()
+				}
+				if !ok[caller] {
+					all = false
+				}
+			}
+			if all {
+				ok[fn] = true
+				changed = true
 			}
 		}
 	}
-	return out
+	return ok
 }
 
 func c03Frames(c *Ctx, p *Prog, m *Model) {
@@ -428,6 +490,7 @@ func c03Frames(c *Ctx, p *Prog, m *Model) {
 		names = append(names, n)
 	}
 	sort.Strings(names)
+	te := newTermEval(p)
 	for _, n := range names {
 		op := dwOps[n]
 		fn := p.Method(p.Slog, "dualWriter", n)
@@ -435,18 +498,6 @@ func c03Frames(c *Ctx, p *Prog, m *Model) {
 		if fn == nil {
 			r.Unk("R03.3", key, "-", "method not found")
 			continue
-		}
-		got := transitiveDWStores(p, fn, map[*ssa.Function]bool{})
-		var gs []string
-		for f := range got {
-			gs = append(gs, f)
-		}
-		sort.Strings(gs)
-		ws := append([]string(nil), op.fields...)
-		sort.Strings(ws)
-		var probs []string
-		if fmt.Sprint(gs) != fmt.Sprint(ws) {
-			probs = append(probs, fmt.Sprintf("writes %v, its own lists are %v", gs, ws))
 		}
 		recv := receiver(fn)
 		var wparam, lparam *ssa.Parameter
@@ -457,87 +508,205 @@ func c03Frames(c *Ctx, p *Prog, m *Model) {
 				wparam = q
 			}
 		}
-		for _, fs := range fieldStores(fn) {
-			if fs.Struct != "dualWriter" || fs.Base != ssa.Value(recv) {
+		effs := te.effectsOf(fn, nil)
+		got := map[string]bool{}
+		var probs []string
+		var mine []Effect
+		for _, ef := range effs {
+			if ef.Struct != "dualWriter" {
 				continue
 			}
-			pos := p.Pos(instrPos(fs.Instr))
-			switch op.kind {
-			case "add":
-				if fs.Kind == "store" {
-					call, ok := strip(fs.Val).(*ssa.Call)
-					if !ok || !isBuiltinCall(call, "append") {
-						probs = append(probs, "stores something that is not append(old list, w) at "+pos)
+			if !ef.Base.isParam(recv) {
+				probs = append(probs, "writes "+ef.Field+" of a writer set other than its receiver at "+p.Pos(instrPos(ef.Instr)))
+				continue
+			}
+			got[ef.Field] = true
+			mine = append(mine, ef)
+		}
+		gs := sortedKeys(got)
+		ws := append([]string(nil), op.fields...)
+		sort.Strings(ws)
+		if fmt.Sprint(gs) != fmt.Sprint(ws) {
+			probs = append(probs, fmt.Sprintf("writes %v, its own lists are %v", gs, ws))
+		}
+		// outer instruction of an effect (its call site in fn when it happens in a helper)
+		outer := func(ef Effect) ssa.Instruction {
+			if len(ef.Chain) > 0 {
+				return ef.Chain[0]
+			}
+			return ef.Instr
+		}
+		comparedWithWriter := func(a *Term) bool {
+			in, ok := a.V.(ssa.Instruction)
+			if !ok || in.Block() == nil {
+				return false
+			}
+			var holds func(cd ssa.Value, depth int) bool
+			holds = func(cd ssa.Value, depth int) bool {
+				cd, neg := normCond(cd)
+				if neg || depth > 6 {
+					return false
+				}
+				switch x := cd.(type) {
+				case *ssa.BinOp:
+					return x.Op == token.EQL && wparam != nil && (te.eval(x.X, a.C).mentionsParam(wparam) || te.eval(x.Y, a.C).mentionsParam(wparam))
+				case *ssa.Phi:
+					// short-circuit value: every way of being true passes a comparison with the writer
+					for i, ed := range x.Edges {
+						if cb, isC := constBool(ed); isC {
+							if !cb {
+								continue
+							}
+							pi := ifOf(x.Block().Preds[i])
+							if pi == nil || !holds(pi.Cond, depth+1) {
+								return false
+							}
+							continue
+						}
+						if !holds(ed, depth+1) {
+							return false
+						}
+					}
+					return true
+				}
+				return false
+			}
+			// the block is entered only over true-edges of comparisons with the writer
+			seen := map[*ssa.BasicBlock]bool{}
+			var only func(b *ssa.BasicBlock) bool
+			only = func(b *ssa.BasicBlock) bool {
+				if seen[b] {
+					return true
+				}
+				seen[b] = true
+				for _, g := range guardsOf(b) {
+					if g.Succ == 0 && holds(g.If.Cond, 0) {
+						return true
+					}
+				}
+				if len(b.Preds) == 0 {
+					return false
+				}
+				for _, pr := range b.Preds {
+					if iff := ifOf(pr); iff != nil && pr.Succs[0] == b && pr.Succs[1] != b && holds(iff.Cond, 0) {
 						continue
 					}
-					if b, ok := isFieldLoadOf(call.Common().Args[0], "dualWriter", fs.Field); !ok || b != ssa.Value(recv) {
-						probs = append(probs, "does not append to the old "+fs.Field+" list at "+pos)
+					if !only(pr) {
+						return false
 					}
-					if wparam != nil && !dependsOnParam(call.Common().Args[1], wparam) {
+				}
+				return true
+			}
+			return only(in.Block())
+		}
+		cutOut := func(a *Term, old func(*Term) bool) bool {
+			if a.Op != "append" || len(a.Args) < 2 {
+				return false
+			}
+			for _, x := range a.Args {
+				if !x.contains(old) {
+					return false
+				}
+			}
+			return true
+		}
+		for _, ef := range mine {
+			pos := p.Pos(instrPos(ef.Instr))
+			isOld := func(t *Term) bool { return t.isFieldOf(recv, ef.Field) }
+			switch op.kind {
+			case "add":
+				if ef.Kind != "store" {
+					probs = append(probs, "unexpected "+ef.Kind+" of "+ef.Field+" at "+pos)
+					continue
+				}
+				for _, a := range ef.Val.alts() {
+					switch {
+					case a.Op != "append" || len(a.Args) < 2:
+						probs = append(probs, "stores something that is not append(old list, w) at "+pos)
+					case !isOld(a.Args[0]):
+						probs = append(probs, "does not append to the old "+ef.Field+" list at "+pos)
+					case wparam != nil && !a.Args[1].mentionsParam(wparam):
 						probs = append(probs, "the appended element is not the writer given at "+pos)
 					}
 				}
 			case "set":
-				if fs.Kind == "store" && !isNilConst(fs.Val) {
-					for _, s := range sources(fs.Val) {
-						if dependsOnFieldLoad(s, "dualWriter", fs.Field) {
+				if ef.Kind != "store" {
+					probs = append(probs, "unexpected "+ef.Kind+" of "+ef.Field+" at "+pos)
+					continue
+				}
+				for _, a := range ef.Val.alts() {
+					if a.Op == "nil" {
+						continue
+					}
+					if wparam != nil && !a.mentionsParam(wparam) {
+						probs = append(probs, "the list installed does not hold the writer given at "+pos)
+					}
+					if a.contains(isOld) {
+						// allowed only as "clear, then add": a nil store of the same list comes first on every path
+						cleared := false
+						for _, e2 := range mine {
+							if e2.Kind == "store" && e2.Field == ef.Field && e2.Val.Op == "nil" && after(outer(e2), outer(ef)) && !after(outer(ef), outer(e2)) {
+								cleared = true
+							}
+						}
+						if !cleared {
 							probs = append(probs, "the new list is derived from the old one at "+pos+" (set must replace)")
 						}
 					}
-					if wparam != nil && !dependsOnParam(fs.Val, wparam) {
-						probs = append(probs, "the list installed does not hold the writer given at "+pos)
-					}
 				}
 			case "remove":
-				if fs.Kind == "store" {
-					call, ok := strip(fs.Val).(*ssa.Call)
-					good := ok && isBuiltinCall(call, "append")
-					if good {
-						for _, a := range call.Common().Args {
-							if !dependsOnFieldLoad(a, "dualWriter", fs.Field) {
-								good = false
-							}
-						}
+				if ef.Kind != "store" {
+					probs = append(probs, "unexpected "+ef.Kind+" of "+ef.Field+" at "+pos)
+					continue
+				}
+				for _, a := range ef.Val.alts() {
+					if isOld(a) {
+						continue // unchanged
 					}
-					if !good {
-						probs = append(probs, "the list stored is not the old "+fs.Field+" list with one element cut out at "+pos)
+					if !cutOut(a, isOld) {
+						probs = append(probs, "the list stored is not the old "+ef.Field+" list with one element cut out at "+pos)
+						continue
 					}
-					matched := false
-					for _, g := range guardsOf(fs.Instr.Block()) {
-						cond, _ := normCond(g.If.Cond)
-						if bo, ok := cond.(*ssa.BinOp); ok && bo.Op == token.EQL && wparam != nil && (dependsOnParam(bo.X, wparam) || dependsOnParam(bo.Y, wparam)) && g.Succ == 0 {
-							matched = true
-						}
-					}
-					if !matched {
+					if !comparedWithWriter(a) {
 						probs = append(probs, "an element is removed without having been compared with the writer given at "+pos)
 					}
 				}
 			case "addlevel", "removelevel":
-				if fs.Kind == "mapupdate" {
-					mu := fs.Instr.(*ssa.MapUpdate)
-					if lparam == nil || strip(mu.Key) != ssa.Value(lparam) {
+				isOldL := func(t *Term) bool {
+					return (t.Op == "lookup") && len(t.Args) == 2 && t.Args[0].isFieldOf(recv, "leveled") && lparam != nil && t.Args[1].isParam(lparam)
+				}
+				switch ef.Kind {
+				case "mapupdate":
+					if lparam == nil || !ef.Key.isParam(lparam) {
 						probs = append(probs, "leveled is updated under a key other than the lvl parameter at "+pos)
 					}
-					call, ok := strip(mu.Value).(*ssa.Call)
-					if !ok || !isBuiltinCall(call, "append") {
-						probs = append(probs, "leveled[lvl] is not assigned an append of its old value at "+pos)
-					} else if op.kind == "addlevel" {
-						lk, ok := strip(call.Common().Args[0]).(*ssa.Lookup)
-						if !ok || strip(lk.Index) != ssa.Value(lparam) {
-							probs = append(probs, "does not append to the old leveled[lvl] at "+pos)
-						}
-						if wparam != nil && !dependsOnParam(call.Common().Args[1], wparam) {
-							probs = append(probs, "the appended element is not the writer given at "+pos)
+					for _, a := range ef.Val.alts() {
+						if op.kind == "addlevel" {
+							switch {
+							case a.Op != "append" || len(a.Args) < 2:
+								probs = append(probs, "leveled[lvl] is not assigned an append of its old value at "+pos)
+							case !isOldL(a.Args[0]):
+								probs = append(probs, "does not append to the old leveled[lvl] at "+pos)
+							case wparam != nil && !a.Args[1].mentionsParam(wparam):
+								probs = append(probs, "the appended element is not the writer given at "+pos)
+							}
+						} else {
+							if isOldL(a) {
+								continue
+							}
+							if !cutOut(a, isOldL) {
+								probs = append(probs, "leveled[lvl] is not assigned its old value with one element cut out at "+pos)
+							} else if !comparedWithWriter(a) {
+								probs = append(probs, "an element is removed without having been compared with the writer given at "+pos)
+							}
 						}
 					}
-				} else if fs.Kind == "store" {
-					if _, ok := strip(fs.Val).(*ssa.MakeMap); !ok {
+				case "store":
+					if ef.Val.Op != "makemap" {
 						probs = append(probs, "leveled is replaced by something other than a fresh map at "+pos)
 					}
-					// only when nil
 					okg := false
-					for _, g := range guardsOf(fs.Instr.Block()) {
+					for _, g := range ef.guardsWithChain() {
 						if d := m.guardDesc(g); d == "T:dualWriter.leveled == nil" || d == "F:dualWriter.leveled != nil" {
 							okg = true
 						}
@@ -545,54 +714,59 @@ func c03Frames(c *Ctx, p *Prog, m *Model) {
 					if !okg {
 						probs = append(probs, "leveled is replaced although it may hold writers at "+pos)
 					}
+				default:
+					probs = append(probs, "unexpected "+ef.Kind+" of "+ef.Field+" at "+pos)
 				}
 			case "resetlevel":
-				if fs.Kind == "delete" {
-					cs := fs.Instr.(ssa.CallInstruction)
-					if lparam == nil || strip(cs.Common().Args[1]) != ssa.Value(lparam) {
+				if ef.Kind == "delete" {
+					if lparam == nil || !ef.Key.isParam(lparam) {
 						probs = append(probs, "deletes a key other than the lvl parameter at "+pos)
 					}
 				} else {
-					probs = append(probs, "unexpected "+fs.Kind+" of "+fs.Field+" at "+pos)
+					probs = append(probs, "unexpected "+ef.Kind+" of "+ef.Field+" at "+pos)
 				}
 			case "nil":
-				if !isNilConst(fs.Val) {
-					probs = append(probs, fs.Field+" is not cleared at "+pos)
+				if ef.Kind != "store" || ef.Val.Op != "nil" {
+					probs = append(probs, ef.Field+" is not cleared at "+pos)
 				}
 			}
 		}
-		r.Check(len(probs) == 0, "R03.3", key, p.FuncPos(fn), fmt.Sprintf("writes only %v with the %s shape", ws, op.kind), strings.Join(probs, "; "))
+		r.Check(len(probs) == 0, "R03.3", key, p.FuncPos(fn), fmt.Sprintf("writes only %v with the %s shape", ws, op.kind), strings.Join(dedupStr(probs), "; "))
 	}
 	// Set: clears before adding
 	if set := p.Method(p.Slog, "dualWriter", "Set"); set != nil {
-		var clr *ssa.Store
-		var add ssa.CallInstruction
-		for _, b := range set.Blocks {
-			for _, in := range b.Instrs {
-				if st, ok := in.(*ssa.Store); ok {
-					if f, okf := st.Addr.(*ssa.FieldAddr); okf && isNilConst(st.Val) && nm(structOf(f.X.Type()).Field(f.Field)) == "Normal" {
-						clr = st
-					}
+		var clr, add ssa.Instruction
+		recv := receiver(set)
+		for _, ef := range te.effectsOf(set, nil) {
+			if ef.Struct != "dualWriter" || ef.Field != "Normal" || !ef.Base.isParam(recv) || ef.Kind != "store" {
+				continue
+			}
+			o := ef.Instr
+			if len(ef.Chain) > 0 {
+				o = ef.Chain[0]
+			}
+			if ef.Val.Op == "nil" {
+				if clr == nil {
+					clr = o
 				}
-				if cs, ok := in.(ssa.CallInstruction); ok {
-					if cal := calleeOf(cs); cal != nil && nm(cal) == "Add" {
-						add = cs
-					}
-				}
+			} else {
+				add = o
 			}
 		}
 		r.Check(clr != nil && add != nil && after(clr, add) && !after(add, clr), "R03.3", "op:dualWriter.Set:order", p.FuncPos(set), "clears the list, then adds the writer", "Set does not clear the normal list before adding the writer (it would append instead of replace)")
 	}
 	// no other function writes the three lists
+	allowed := allowedListWriters(p, m)
 	for _, fn := range p.RepoFuncs() {
-		if fn.Signature.Recv() != nil && typeName(fn.Signature.Recv().Type()) == "dualWriter" {
-			if _, ok := dwOps[nm(fn)]; ok {
-				continue
-			}
+		top := fn
+		for top.Parent() != nil {
+			top = top.Parent()
 		}
-		for _, fs := range fieldStores(fn) {
-			if fs.Struct == "dualWriter" && fs.Kind != "addr-escape" {
-				r.Bad("R03.3", "foreign-writer:"+shortName(fn)+":"+fs.Field, p.Pos(instrPos(fs.Instr)), "%s writes the destination list %s outside the documented operations", shortName(fn), fs.Field)
+		if !allowed[top] {
+			for _, fs := range fieldStores(fn) {
+				if fs.Struct == "dualWriter" && fs.Kind != "addr-escape" {
+					r.Bad("R03.3", "foreign-writer:"+shortName(fn)+":"+fs.Field, p.Pos(instrPos(fs.Instr)), "%s writes the destination list %s outside the documented operations", shortName(fn), fs.Field)
+				}
 			}
 		}
 		// element stores into the lists (in-place edits) anywhere
@@ -639,6 +813,7 @@ func c03Wrappers(c *Ctx, p *Prog, m *Model) {
 	}
 	sort.Strings(names)
 	ndw := p.Func(p.Slog, "newDualWriter")
+	te := newTermEval(p)
 	for _, n := range names {
 		op := entryWriterOps[n]
 		fn := p.Method(p.Slog, "Entry", n)
@@ -650,11 +825,26 @@ func c03Wrappers(c *Ctx, p *Prog, m *Model) {
 		del := p.Method(p.Slog, "dualWriter", op.delegate)
 		recv := receiver(fn)
 		var probs []string
+		isDW := func(f *ssa.Function) bool {
+			return f == ndw || (f.Signature.Recv() != nil && typeName(f.Signature.Recv().Type()) == "dualWriter")
+		}
+		te.noInline = isDW
 		for _, isNil := range []bool{true, false} {
 			a := map[string]bool{"writer==nil": isNil}
-			t := walkDecision(fn.Blocks[0], a, func(cond ssa.Value) (string, bool) {
+			subst := map[ssa.Value]ssa.Value{}
+			res := func(v ssa.Value) ssa.Value {
+				for i := 0; i < 8; i++ {
+					w, ok := subst[v]
+					if !ok {
+						break
+					}
+					v = w
+				}
+				return v
+			}
+			t := walkDecisionInl(fn.Blocks[0], a, func(cond ssa.Value) (string, bool) {
 				if bo, ok := cond.(*ssa.BinOp); ok && isNilConst(bo.Y) {
-					if b, ok := isFieldLoadOf(bo.X, "Entry", "writer"); ok && b == ssa.Value(recv) {
+					if b, ok := isFieldLoadOf(bo.X, "Entry", "writer"); ok && res(b) == ssa.Value(recv) {
 						if bo.Op == token.EQL {
 							return "writer==nil", true
 						}
@@ -663,7 +853,14 @@ func c03Wrappers(c *Ctx, p *Prog, m *Model) {
 					}
 				}
 				return "", false
-			}, nil)
+			}, nil, func(cs ssa.CallInstruction) *ssa.Function {
+				// private helpers of the wrapper (e.g. "give me the writer set, creating it first") are part of it
+				cal := calleeOf(cs)
+				if cal == nil || cal.Pkg != p.Slog || isDW(cal) || cal.Object() == nil || cal.Object().Exported() {
+					return nil
+				}
+				return cal
+			}, subst, 0)
 			if t.Kind != "return" {
 				probs = append(probs, "depends on a condition other than 'writer set present' ("+t.Kind+")")
 				continue
@@ -671,11 +868,11 @@ func c03Wrappers(c *Ctx, p *Prog, m *Model) {
 			called, created := false, false
 			var callInstr ssa.CallInstruction
 			for _, cs := range t.Calls {
-				if calleeOf(cs) == ndw && ndw != nil {
+				if calleeOf(cs) == ndw && ndw != nil && cs.Value() != nil {
 					// stored to s.writer?
 					for _, ref := range *cs.Value().Referrers() {
 						if st, ok := ref.(*ssa.Store); ok {
-							if fa, ok := st.Addr.(*ssa.FieldAddr); ok && fa.X == ssa.Value(recv) && nm(structOf(fa.X.Type()).Field(fa.Field)) == "writer" {
+							if fa, ok := st.Addr.(*ssa.FieldAddr); ok && res(fa.X) == ssa.Value(recv) && nm(structOf(fa.X.Type()).Field(fa.Field)) == "writer" {
 								if !called {
 									created = true
 								}
@@ -696,16 +893,27 @@ func c03Wrappers(c *Ctx, p *Prog, m *Model) {
 			case isNil && op.lazy && !called:
 				probs = append(probs, "on a fresh logger the operation is dropped instead of creating the writer set")
 			}
-			if called {
+			if called && callInstr.Parent() == fn {
 				args := callInstr.Common().Args
-				if b, ok := isFieldLoadOf(args[0], "Entry", "writer"); !ok || b != ssa.Value(recv) {
+				own := false
+				for _, alt := range te.eval(args[0], nil).alts() {
+					if alt.isFieldOf(recv, "writer") {
+						own = true
+					} else {
+						own = false
+						break
+					}
+				}
+				if !own {
 					probs = append(probs, "the delegate is not applied to the receiver's own writer set")
 				}
 				for i, q := range fn.Params[1:] {
-					if i+1 >= len(args) || args[i+1] != ssa.Value(q) {
-						probs = append(probs, "parameter "+nm(q)+" is not handed to the delegate unchanged")
+					if i+1 >= len(args) || !te.eval(args[i+1], nil).isParam(q) {
+						probs = append(probs, "parameter "+q.Name()+" is not handed to the delegate unchanged")
 					}
 				}
+			} else if called {
+				probs = append(probs, "the delegate is called from a helper, not from the wrapper itself (not analysed)")
 			}
 		}
 		// no other dualWriter method is called
